@@ -130,7 +130,14 @@ def run(chk, prop, theorem_files, knob_sets, n_quick, n_thorough, oracle_keys, n
     if replay_asts(chk) is not None:
         asts = replay_asts(chk)
         tags = ["replay"] * len(asts)
-    results = project_stream.run_projects(chk, asts, want_oracles=oracle_keys, again=again)
+    # projects tagged `fresh-` run in a worker process of their own (nothing was parsed or scheduled before them)
+    shared = [i for i, t in enumerate(tags) if not t.startswith("fresh-")]
+    results = [None] * len(asts)
+    for i, r in zip(shared, project_stream.run_projects(chk, [asts[i] for i in shared], want_oracles=oracle_keys, again=again)):
+        results[i] = r
+    for i, t in enumerate(tags):
+        if t.startswith("fresh-"):
+            results[i] = project_stream.run_projects(chk, [asts[i]], want_oracles=oracle_keys, again=again)[0]
     feat = collections.Counter()
     dis = []
     found = []
